@@ -90,7 +90,7 @@ def _check(solver, cond, timeout_ms):
 def make_engine(case, repo, summaries_lib, seed=0):
     summaries = {}
     loops = {}
-    for s in case.summaries:
+    for s in list(summaries_lib.get("default", [])) + list(case.summaries):
         summaries[s] = summaries_lib["summaries"][s]
     for key in case.loops:
         loops[key] = summaries_lib["loops"][key]
